@@ -117,14 +117,14 @@ func TestSemanticChangesAreSeen(t *testing.T) {
 	cases := map[string]map[string][][2]string{
 		"word order in the jump rule": {srcPM: {
 			{`args = append(args, "-m", protocol, "-p", protocol, "--dport"`, `args = append(args, "-p", protocol, "-m", protocol, "--dport"`}}},
-		"mark value": {srcPM: {{`"0x4000/0x4000"`, `"0x8000/0x8000"`}}},
-		"clean drops -X": {srcPM: {{"\t\twriteLine(natRules, \"-X\", string(hostportChain))\n\t\tkubeHostportsChainRules", "\t\tkubeHostportsChainRules"}}},
+		"mark value":                   {srcPM: {{`"0x4000/0x4000"`, `"0x8000/0x8000"`}}},
+		"clean drops -X":               {srcPM: {{"\t\twriteLine(natRules, \"-X\", string(hostportChain))\n\t\tkubeHostportsChainRules", "\t\tkubeHostportsChainRules"}}},
 		"-X goes to the chains buffer": {srcPM: {{"\t\twriteLine(natRules, \"-X\", string(hostportChain))\n\t\tkubeHostportsChainRules", "\t\twriteLine(natChains, \"-X\", string(hostportChain))\n\t\tkubeHostportsChainRules"}}},
-		"hash ignores the protocol": {srcPM: {{"strconv.Itoa(int(port.HostPort)) + port.Protocol +", "strconv.Itoa(int(port.HostPort)) +"}}},
+		"hash ignores the protocol":    {srcPM: {{"strconv.Itoa(int(port.HostPort)) + port.Protocol +", "strconv.Itoa(int(port.HostPort)) +"}}},
 		"port file written after the setup (seeded C14-1)": {srcSrv: {
 			{"\tif err := k8s.SavePort(containerID, data); err != nil {\n\t\treturn fmt.Errorf(\"failed to save ports %v\", err)\n\t}\n\tif err := g.pmhandler.SetupPortMapping(req.Ports); err != nil {\n\t\treturn fmt.Errorf(\"failed to setup port mapping %v: %v\", req.Ports, err)\n\t}",
 				"\tif err := g.pmhandler.SetupPortMapping(req.Ports); err != nil {\n\t\treturn fmt.Errorf(\"failed to setup port mapping %v: %v\", req.Ports, err)\n\t}\n\tif err := k8s.SavePort(containerID, data); err != nil {\n\t\treturn fmt.Errorf(\"failed to save ports %v\", err)\n\t}"}}},
-		"ADD failure without cleanup": {srcSrv: {{"\t\t\t\t\tg.cleanupPortMapping(req)\n\t\t\t\t\treturn", "\t\t\t\t\treturn"}}},
+		"ADD failure without cleanup":           {srcSrv: {{"\t\t\t\t\tg.cleanupPortMapping(req)\n\t\t\t\t\treturn", "\t\t\t\t\treturn"}}},
 		"DEL cleans up even when CmdDel failed": {srcSrv: {{"\t\tif err == nil {\n\t\t\terr = g.cleanupPortMapping(req)\n\t\t}", "\t\tif err != nil {\n\t\t\terr = g.cleanupPortMapping(req)\n\t\t}"}}},
 	}
 	for name, edits := range cases {
